@@ -2044,6 +2044,7 @@ impl Compiler {
         // Compile parameter declarations inline (same as compile_function_body)
         // Also collect parameter properties (public/private/protected) to assign to this
         let mut param_names = Vec::with_capacity(ctor.params.len());
+        let mut rest_param = None;
         // Param properties: (name, value_reg, needs_free)
         // needs_free is true for registers allocated for default values
         let mut param_properties: Vec<(JsString, u8, bool)> = Vec::new();
@@ -2068,6 +2069,8 @@ impl Compiler {
                     }
                 }
                 crate::ast::Pattern::Rest(rest) => {
+                    // The call packs the remaining arguments into an array for this slot
+                    rest_param = Some(idx);
                     if let crate::ast::Pattern::Identifier(id) = &*rest.argument {
                         param_names.push(id.name.cheap_clone());
                         let name_idx = func_compiler.builder.add_string(id.name.cheap_clone())?;
@@ -2204,7 +2207,7 @@ impl Compiler {
             name,
             param_count: ctor.params.len(),
             param_names,
-            rest_param: None,
+            rest_param,
             is_generator: false,
             is_async: false,
             is_arrow: false,
